@@ -56,7 +56,7 @@ TDirect ==
   /\ E.ev = "dw"
   /\ IF s.mode = "sized"
      THEN Step(SizedDirectFails(s, E)) /\ s' = SizedDirectUpd(s, E)
-     ELSE Step({}) /\ s' = s
+     ELSE Step(ChunkedDirectFails(s, E)) /\ s' = s
   /\ UNCHANGED <<cs, row, prevmx>>
 
 TMax ==
